@@ -248,6 +248,42 @@ def classify_deriv(case):
     return [f"d={case['d']}", f"negatives={neg}"], True
 
 
+# ------------------------------------------------------------------------------------ one copula object, many calls
+@st.composite
+def strat_calls(draw, tier):
+    calls = []
+    for _ in range(draw(st.integers(2, 6))):
+        d = draw(st.sampled_from([2, 3, 4]))
+        u = [draw(st.sampled_from([-1, 1])) * _mag(draw) for _ in range(d)]
+        special = draw(st.sampled_from([None, None, None, "zero", "inf"]))
+        if special == "zero":
+            u[draw(st.integers(0, d - 1))] = 0.0
+        elif special == "inf":
+            u[draw(st.integers(0, d - 1))] = INF * draw(st.sampled_from([-1, 1]))
+        calls.append(u)
+    return {"copula": draw(strat_cop()), "calls": calls, "conditional": draw(st.booleans())}
+
+
+def body_calls(case):
+    """a copula object is a function of its argument vector only (the classes take no dimension): the value of a call
+    does not depend on the calls - possibly in another dimension - made before on the same object"""
+    cspec = case["copula"]
+    shared = build_copula(cspec)
+    for i, u in enumerate(case["calls"]):
+        arr = np.array(u, dtype=float)
+        got = float(shared(arr.copy()))
+        want = float(build_copula(cspec)(arr.copy()))
+        if got != want and not (math.isnan(got) and math.isnan(want)):
+            return [Violation(f"C11/{cspec['type']}/value-depends-on-earlier-calls",
+                              f"call #{i} F({u}) = {got!r} on the shared object, {want!r} on a fresh one; case={case}")]
+    return []
+
+
+def classify_calls(case):
+    dims = sorted({len(u) for u in case["calls"]})
+    return [case["copula"]["type"], "dims=" + "".join(map(str, dims))], len(dims) >= 2
+
+
 SUBCHECKS = [
     SubCheck("grounded-increasing-margins", body_volume, classify_volume,
              rule="copula (Clayton theta in [0.2,5], eta in [0,1] incl. end points; independent; completely dependent) "
@@ -265,4 +301,9 @@ SUBCHECKS = [
              rule="x_first_derivative(u) vs Richardson-extrapolated central mixed finite difference of F times prod(u), "
                   "d in {2,3}, all orthants",
              strategy=strat_deriv, budget={"quick": 600, "thorough": 10000}),
+    SubCheck("one-object-many-calls", body_calls, classify_calls,
+             rule="one copula object evaluated on a generated sequence of 2..6 argument vectors of dimension 2, 3 or 4 "
+                  "(with zero / infinite entries) against a fresh object per call: bitwise equal; non-trivial = at least "
+                  "two different dimensions",
+             strategy=strat_calls, budget={"quick": 2000, "thorough": 30000}, shards={"quick": 16, "thorough": 16}),
 ]
